@@ -1,4 +1,4 @@
-CONSTANTS Budget = 7 MaxItems = 3 Sim = TRUE
+CONSTANTS Budget = 7 MaxItems = 3 Sim = TRUE Headers = "all"
   Masked = {"clause_guard", "none_unary", "pas_var"}
 SPECIFICATION Spec
 INVARIANTS PendingInvisible TargetsAreBinders Balanced ScopeDeclarative
